@@ -136,10 +136,35 @@ def shard_c02(ctx, shard, n):
         _note(ctx, g, ops, "generate")
 
 
+def cond_flip_program(rng, ctx):
+    """top-level fn whose first call is a Cond checked on the sign of argument 0 (so an argument change flips the branch)"""
+    gen = gfi.Gen(rng, depth=1)
+    tb = gen.scalar_gf(1, 1)
+    if tb[0] == "fn":
+        fb = gen.mutate(tb) if rng.random() < 0.8 else gen.fn(["S"], 0, addrs=["u", "w"])
+    else:
+        fb = gen.mutate(tb)
+    rest = gen.fn(["S", "S", "V", "S"], 1, ncalls=rng.randint(1, 2), addrs=rng.sample(["p", "q", "r"], 2))
+    body = ("call", "k", ("cond", tb, fb), [("<", ("v", 0), ("c", Fr(0))), gen.sexpr(["S", "S"], 1)], rest[1])
+    return gen, ("fn", body), ["S", "S", "V"]
+
+
 def shard_c03(ctx, shard, n):
     G = impl.load()
     rng = random.Random(ctx.seed * 7919 + shard + 200)
-    for _ in range(n):
+    for it in range(n):
+        if it % 3 == 2:
+            gen, g, pt = cond_flip_program(rng, ctx)
+            args = gen.args(pt)
+            args[0] = Fr(rng.choice([-3, -1, 1, 3]), 4)
+            ops = [("simulate", args) if rng.random() < 0.6 else ("generate", constraint_subset(rng, g, gen.values(g), "some"), args)]
+            for j in range(3):
+                args = list(args)
+                args[0] = -args[0] if rng.random() < 0.8 else args[0]
+                ops.append(("update", constraint_subset(rng, g, gen.values(g), rng.choice(["none", "none", "some"])), args))
+            gfi_run.check_case(ctx, G, g, ops, roundtrip=True, label="C03")
+            _note(ctx, g, ops, "update-cond-flip")
+            continue
         gen, g, pt = _gen(rng, ctx)
         args = gen.args(pt)
         start = rng.random()
